@@ -167,7 +167,6 @@ Section Def.
   Definition rowv (s : mstate) (h r : N) : N := match rd_row s h r with Some v => v | None => 0 end.
   Definition bit (s : mstate) (h r i : N) : bool := N.testbit (rowv s h r) i.
   Definition isMark (e : N) : N := b2n (e =? MARK).
-  Definition cz (v : N) : N := ssum 64 (fun i => 1 - b2n (N.testbit v i)).       (* zero bits of a row *)
   Definition zeros (s : mstate) (h : N) : N :=
     match nth_error (ms_bfs s) (nn h) with Some rows => sumf cz rows | None => 0 end.
 
@@ -183,6 +182,8 @@ Section Def.
     I_len2 : length (ms_ents s) = nn (ntab g (ms_frames s) * THUGE);
     I_rows : forall h rows, nth_error (ms_bfs s) h = Some rows -> rows_ok g rows;
     I_nobf : forall h, nbf g (ms_frames s) <= h -> entv s h = 0;
+    (* a marker entry lies entirely inside the managed range *)
+    I_G : forall h, h < nbf g (ms_frames s) -> entv s h = MARK -> (h + 1) * HF <= ms_frames s;
     (* every set bit (and every frame under a marker) has exactly one owner *)
     I_A : forall h r i, h < nbf g (ms_frames s) -> r < ROWS -> i < 64 ->
           b2n (bit s h r i) + isMark (entv s h)
@@ -213,6 +214,7 @@ Section Def.
     Nat.eqb (length (ms_ents s)) (nn (ntab g fr_ * THUGE)) &&
     forallb (fun rows => Nat.eqb (length rows) (rows_nat g) && forallb (fun r => r <? W64) rows) (ms_bfs s) &&
     allb (N.of_nat (length (ms_ents s))) (fun h => (h <? nb) || (entv s h =? 0)) &&
+    allb nb (fun h => negb (entv s h =? MARK) || ((h + 1) * HF <=? fr_)) &&
     allb nb (fun h => allb ROWS (fun r => allb 64 (fun i =>
       (b2n (bit s h r i) + isMark (entv s h)
        =? heldc (fidx h r i) (ms_held s) + sumf (fr h r i) (ms_pool s) + sumf (tr h r) (ms_pool s)
